@@ -330,6 +330,7 @@ def check(case, res, ctx):
 
     # ---- selects
     by_name_path = {}
+    itext_box = [None]
     for el in elements:
         by_name_path.setdefault(el["name"], []).append(el)
     for s in selects:
@@ -375,6 +376,11 @@ def check(case, res, ctx):
             got = [i.findtext(f"{XF}value") for i in inline]
             if got != exp:
                 v("search-inline-items-differ", f"{who}: list rows {exp} but inline item values {got}")
+                continue
+            if all(ch["name"] in r for r in rows):
+                if itext_box[0] is None:
+                    itext_box[0] = corpus.IText(xf)
+                check_inline_labels(v, who, ln, rows, inline, ch, itext_box[0])
             continue
         if inline:
             v("inline-items-without-search", f"{who}: {len(inline)} inline <item>s although the list is not consumed "
@@ -507,6 +513,66 @@ def check(case, res, ctx):
     if any(s["command"] == "select_one_external" for s in selects) and eh and erows:
         out.extend(check_itemsets_csv(eh, corpus.sheet_dicts(wb, "external_choices"), res.itemsets))
     return out
+
+
+def check_inline_labels(v, who, ln, rows, inline, ch, itx):
+    """Inline <item>s of a search() select, positionally against the sheet rows of the list: one <label> each, either
+    literal text equal to the row's label cell, or a literal jr:itext('id') of its own (never shared by two items of
+    the select) whose text in language L is the row's label::L cell (plain label cell: the text in some language)."""
+    lang_cols = {}
+    for h in ch["headers"]:
+        if "::" in h:
+            base, lang = corpus.split_lang_header(h, True)
+            if base == "label" and lang:
+                lang_cols[lang] = h
+    seen = {}
+    for pos, (row, it) in enumerate(zip(rows, inline)):
+        nm = row[ch["name"]]
+        labs = it.findall(f"{XF}label")
+        if len(labs) != 1:
+            v("search-inline-label-count", f"{who}: inline item #{pos} ({nm!r}) of list {ln!r} has {len(labs)} <label>s")
+            return
+        ref = labs[0].get("ref")
+        plain = row.get(ch["label"]) if ch["label"] else None
+        if plain is not None and "${" in plain:
+            plain = None
+        if ref is None:
+            text = corpus.flatten_value(labs[0])
+            if plain is not None:
+                if _norm(text) != _norm(plain):
+                    v("search-inline-label-differs", f"{who}: inline item #{pos} ({nm!r}) of list {ln!r}: label cell "
+                                                     f"{plain!r} but <label> text {text!r}")
+                    return
+            elif not ch["label"] and not ch["rich"] and text.strip():
+                v("search-inline-label-invented", f"{who}: inline item #{pos} ({nm!r}) of list {ln!r}: no label column "
+                                                  f"but <label> text {text!r}")
+                return
+            continue
+        tids = corpus.literal_itext_ids(ref)
+        if len(tids) != 1 or ref.strip() != f"jr:itext('{tids[0]}')":
+            v("search-inline-label-ref-shape", f"{who}: inline item #{pos} ({nm!r}) of list {ln!r}: label ref {ref!r}")
+            return
+        tid = tids[0]
+        if tid in seen:
+            v("search-inline-label-ref-shared", f"{who}: inline items #{seen[tid]} and #{pos} of list {ln!r} both show "
+                                                f"itext id {tid!r}")
+            return
+        seen[tid] = pos
+        for lang, h in lang_cols.items():
+            cell = row.get(h)
+            if cell is None or "${" in cell or lang not in itx.texts:
+                continue
+            shown = itx.shown(lang, tid)
+            if shown is None or _norm(shown) != _norm(cell):
+                v("search-inline-label-itext-differs", f"{who}: inline item #{pos} ({nm!r}) of list {ln!r}: cell {h!r} is "
+                                                       f"{cell!r} but itext {tid!r} shows {shown!r} in {lang!r}")
+                return
+        if plain is not None and itx.texts:
+            shown = [itx.shown(lang, tid) for lang in itx.texts]
+            if not any(x is not None and _norm(x) == _norm(plain) for x in shown):
+                v("search-inline-label-itext-differs", f"{who}: inline item #{pos} ({nm!r}) of list {ln!r}: label cell "
+                                                       f"{plain!r} but itext {tid!r} shows {shown} ")
+                return
 
 
 def check_itemsets_csv(headers, rows, text, key_suffix=""):
@@ -938,6 +1004,167 @@ def fam_search():
     return out
 
 
+# Appearance keywords XLSForm documents for selects (all of them may accompany a search() call in the cell).
+KW_ANY_SELECT = ["minimal", "autocomplete", "compact", "columns", "columns-pack", "no-buttons", "columns-3"]
+KW_SELECT_ONE = ["quick", "quickcompact", "likert"]
+SEARCH_CALLS = ["search('places')",
+                "search('places', 'contains', 'name', ${hint_q})",
+                "search('places','matches','region',${hint_q},'kind','a')",
+                'search("places")']
+
+
+def search_appearances(cmd):
+    """Every documented way of writing a search() consumer in the appearance cell (call alone; one or two keywords
+    before it; keyword(s) after it; both sides; stray blanks), then the look-alikes that are NOT consumers."""
+    kws = KW_ANY_SELECT + (KW_SELECT_ONE if cmd == "select_one" else [])
+    c0, c1 = SEARCH_CALLS[0], SEARCH_CALLS[1]
+    uses = list(SEARCH_CALLS)
+    for kw in kws:
+        uses += [f"{kw} {call}" for call in SEARCH_CALLS[:3]]
+    uses += [f"{kws[0]} {kws[-1]} {c0}", f"{kws[3]} {kws[5]} {c1}", f"{c0} {kws[0]}", f"{c1} {kws[2]}",
+             f"{kws[1]} {c0} {kws[5]}", f" {c0}", f"{kws[0]}  {c0} ", f"{kws[4]} {SEARCH_CALLS[3]}"]
+    decoys = ["", "search", kws[0], kws[-1], f"{kws[0]} search", f"{kws[1]} {kws[5]}"]
+    return uses, decoys
+
+
+def _search_case(name, cmd, app, nest, tr, usage, or_other=False, n=3):
+    lab = (lambda t: {"label::en": t}) if tr else (lambda t: {"label": t})
+
+    def rows(ln, k, stem):
+        out = []
+        for i in range(k):
+            r = {"list_name": ln, "name": f"{stem}{i}"}
+            if tr:
+                r["label::en"], r["label::fr"] = f"{stem} {i} en", f"{stem} {i} fr"
+            else:
+                r["label"] = f"{stem} {i}"
+            out.append(r)
+        return out
+
+    choices = rows("pl", 2, "p") + rows("sl", n, "col")
+    kws = KW_ANY_SELECT
+    sel = {"type": f"{cmd} sl{' or_other' if or_other else ''}", "name": "q", **lab("Q"), "appearance": app}
+    plain = {"type": "select_one pl", "name": "p", **lab("P")}
+    inner = [sel, plain]
+    consumer = "search(" in app
+    if usage == "shared-combined":
+        # a second user of the same list written with another keyword (and a call iff this one has a call: a list
+        # is either consumed by search() in all its selects or in none)
+        kw2 = kws[(len(app) + 1) % len(kws)]
+        inner = [sel, plain, {"type": "select_multiple sl", "name": "q2", **lab("Q2"),
+                              "appearance": f"{kw2} {SEARCH_CALLS[len(app) % 3]}" if consumer else kw2}]
+    elif usage == "shared-exact-first":
+        q0 = {"type": "select_one sl", "name": "q0", **lab("Q0")}
+        if consumer:
+            q0["appearance"] = SEARCH_CALLS[0]
+        inner = [q0, plain, sel]
+    elif usage == "two-search-lists":
+        choices = rows("sl2", 2, "k") + choices
+        inner = [plain, sel, {"type": "select_one sl2", "name": "q3", **lab("Q3"), "appearance": "search('elsewhere')"}]
+        plain["appearance"] = "minimal"
+    elif usage == "plain-keyword-twin":
+        # the same keyword on a select that is NOT a consumer: its list keeps instance + itemset
+        first = app.split()[0] if app.split() and not app.split()[0].startswith("search") else "minimal"
+        plain["appearance"] = first
+    survey = [{"type": "text", "name": "hint_q", **lab("H")}]
+    if nest == "group":
+        survey += [{"type": "begin group", "name": "g", **lab("G")}, *inner, {"type": "end group"}]
+    elif nest == "repeat>group":
+        survey += [{"type": "begin repeat", "name": "r", **lab("R")}, {"type": "begin group", "name": "g", **lab("G")},
+                   *inner, {"type": "end group"}, {"type": "end repeat"}]
+    else:
+        survey += inner
+    hdr = ["list_name", "name", *(["label::en", "label::fr"] if tr else ["label"])]
+    return _mk(name, survey, choices, choices_headers=hdr,
+               survey_headers=["type", "name", *(["label::en"] if tr else ["label"]), "appearance"])
+
+
+SEARCH_NESTS = ("top", "group", "repeat>group")
+SEARCH_USAGES = ("sole", "shared-combined", "shared-exact-first", "two-search-lists", "plain-keyword-twin")
+
+
+def fam_search_appearance(thorough):
+    """Appearance cell shape x select command x nesting x translated labels x who else uses the list. The shape axis
+    is exhaustive in both tiers; the other axes are fully crossed with it in the thorough tier, and in the quick one
+    each shape gets three of the 30 (nesting, translation, usage) combinations, rotated so that all 30 recur."""
+    out = []
+    combos = list(itertools.product(SEARCH_NESTS, (False, True), SEARCH_USAGES))
+    k = 0
+    for cmd in ("select_one", "select_multiple", "rank"):
+        uses, decoys = search_appearances(cmd)
+        if cmd == "rank":
+            uses, decoys = uses[:1] + uses[4:10], decoys[:3]
+        for app in uses + decoys:
+            if thorough:
+                picked = combos
+            else:
+                picked = [combos[(k * 7 + j * 11) % len(combos)] for j in range(3)]
+                k += 1
+            for nest, tr, usage in picked:
+                out.append(_search_case(f"searchapp[{cmd}|{app}|{nest}|{int(tr)}|{usage}]", cmd, app, nest, tr, usage))
+    # or_other on a search() consumer (one trailing 'other' inline item), list sizes 1..4
+    for app in ("search('places')", "minimal search('places')", "search('places') compact"):
+        for n in (1, 2, 4):
+            for cmd in ("select_one", "select_multiple"):
+                out.append(_search_case(f"searchapp-other[{cmd}|{app}|{n}]", cmd, app, "top", False, "sole", True, n))
+    return out
+
+
+def fam_search_mixed(rnd, n):
+    """Random forms: 2-4 lists with clash-prone names, each either consumed by search() (every select on it carries
+    some search() appearance shape), plain (selects with no appearance or a look-alike keyword) or unused; sparse
+    extra columns, interleaved rows, selects at any nesting."""
+    out = []
+    for i in range(n):
+        names = rnd.sample(LIST_NAMES, rnd.randint(2, 4))
+        mode = {ln: rnd.choice(["search", "search", "plain", "plain", "unused"]) for ln in names}
+        mode[names[0]] = "search"
+        tr = rnd.random() < 0.3
+        extras = rnd.sample(["pop", "code", "Zone"], rnd.choice([0, 1, 2]))
+        choices = []
+        for ln in names:
+            choices += _list_rows(ln, rnd.randint(1, 5), extras, rnd, rnd.choice([0.0, 0.5]))
+        if tr:
+            for r in choices:
+                lbl = r.pop("label")
+                r["label::en"], r["label::fr"] = lbl + " en", lbl + " fr"
+        if rnd.random() < 0.3:
+            rnd.shuffle(choices)
+        lab = (lambda t: {"label::en": t}) if tr else (lambda t: {"label": t})
+        survey = [{"type": "text", "name": "hint_q", **lab("H")}]
+        opened, qn = [], 0
+        for ln in names:
+            if mode[ln] == "unused":
+                continue
+            for _ in range(rnd.choice([1, 1, 2, 3])):
+                x = rnd.random()
+                if x < 0.3 and len(opened) < 3:
+                    kind = rnd.choice(["group", "repeat"])
+                    survey.append({"type": f"begin {kind}", "name": f"{kind[0]}{len(survey)}", **lab(kind)})
+                    opened.append(kind)
+                elif x < 0.4 and opened:
+                    survey.append({"type": f"end {opened.pop()}"})
+                cmd = rnd.choice(["select_one", "select_one", "select_multiple", "rank"])
+                uses, decoys = search_appearances(cmd)
+                row = {"type": f"{cmd} {ln}", "name": f"s{qn}", **lab(f"S{qn}")}
+                qn += 1
+                app = rnd.choice(uses) if mode[ln] == "search" else rnd.choice(decoys)
+                if app:
+                    row["appearance"] = app
+                survey.append(row)
+        while opened:
+            survey.append({"type": f"end {opened.pop()}"})
+        fixed = []
+        for j, r in enumerate(survey):
+            fixed.append(r)
+            if r["type"].startswith("begin") and (j + 1 == len(survey) or survey[j + 1]["type"].startswith("end")):
+                fixed.append({"type": "text", "name": f"fill{j}", **lab("fill")})
+        lcols = ["label::en", "label::fr"] if tr else ["label"]
+        out.append(_mk(f"searchmix[{i}]", fixed, choices, choices_headers=["list_name", "name", *lcols, *extras],
+                       survey_headers=["type", "name", lcols[0], "appearance"]))
+    return out
+
+
 def fam_from_repeat():
     out = []
     for filt in (None, "${age} > 3"):
@@ -969,4 +1196,7 @@ def cases(tier, seed):
     out += fam_lists(rnd, 4000 if thorough else 500)
     out += fam_external_sources(rnd, 2500 if thorough else 350)
     out += fam_external_choices(rnd, 1500 if thorough else 200)
+    # appended last, with their own generator, so that the families above stay exactly what they were
+    out += fam_search_appearance(thorough)
+    out += fam_search_mixed(random.Random(seed * 32452843 + 9), 1200 if thorough else 150)
     return out
